@@ -99,7 +99,7 @@ def idType (id : Nat) : Nat := id % modulo
 
 /-- `Conn.nextMsgSeq`'s sequence-number part: `(seqNo, sentContentMessages')`. -/
 def nextSeq (sent : Nat) (content : Bool) : Nat × Nat :=
-  let seqNo := sent * Facts.C08.seqFactor
+  let seqNo := sent * 2
   if content then (seqNo + 1, sent + 1) else (seqNo, sent)
 
 /-- Sequence numbers handed out for a sequence of `nextMsgSeq(content)` critical sections. -/
@@ -141,5 +141,29 @@ def holds (obs : List (Nat × Nat × Bool)) : Bool := holdsFrom none 0 obs
 def obsFrom : Conn → List (Int × Bool) → List (Nat × Nat × Bool)
   | _, [] => []
   | s, (c, f) :: rest => ((nextMsgSeq s c f).2.1, (nextMsgSeq s c f).2.2, f) :: obsFrom (nextMsgSeq s c f).1 rest
+
+/-! ### the executable model: the code as regenerated from the source (`Facts.C08.*T`) -/
+
+/-- `MessageIDGen.New(typ)` with stored time `g` and clock reading `clock`, computed by the
+definition translated from the method body: (id, new stored time). -/
+def genNewT (g : Nat) (clock : Int) (typ : Nat) : Nat × Nat :=
+  let r := Facts.C08.genNewT typ g clock
+  (r.1.toNat, r.2.toNat)
+
+/-- Ids of a sequence of calls (clock reading, message type), by the translated code. -/
+def genIdsT : Nat → List (Int × Nat) → List Nat
+  | _, [] => []
+  | g, (c, t) :: rest => (genNewT g c t).1 :: genIdsT (genNewT g c t).2 rest
+
+/-- One `Conn.nextMsgSeq(content)` critical section by the translated code: the id comes from
+`c.messageID.New(<connNewType>)`, the sequence number from the translated body. -/
+def nextMsgSeqT (s : Conn) (clock : Int) (content : Bool) : Conn × (Nat × Nat) :=
+  let idg := genNewT s.nano clock Facts.C08.connNewType
+  let r := Facts.C08.nextMsgSeqT content s.sent idg.1
+  ({ nano := idg.2, sent := r.2.2.toNat }, (r.1.toNat, r.2.1.toNat))
+
+def connRunT : Conn → List (Int × Bool) → List (Nat × Nat)
+  | _, [] => []
+  | s, (c, f) :: rest => (nextMsgSeqT s c f).2 :: connRunT (nextMsgSeqT s c f).1 rest
 
 end TdModel.C08
